@@ -179,6 +179,10 @@ fn module_ref(rng: &mut Rng, from_dir: &str, target_rel: &str) -> Option<String>
     } else if parent_dir(from_dir).as_deref() == Some(tdir.as_str()) {
         // module lives in the parent directory
         Some(if stdlib_like || rng.chance(500) { format!("..{}", stem) } else { stem })
+    } else if parent_dir(&tdir).as_deref() == Some(from_dir) {
+        // module lives in a child directory: dotted path through the sub-package
+        let sub = tdir.rsplit('/').next().unwrap().to_string();
+        Some(if stdlib_like || rng.chance(500) { format!(".{}.{}", sub, stem) } else { format!("{}.{}", sub, stem) })
     } else {
         None
     }
@@ -306,6 +310,48 @@ pub fn gen_ws(rng: &mut Rng, o: &WsOpts) -> WsSpec {
     if rng.chance(300) {
         let d = rng.pick(&dirs).clone();
         files.push(PyFile { rel: join_rel(&d, "orphan_fixtures.py"), items: vec![Item::Fixture(Fx { func: rng.pick(&names).clone(), ..Default::default() })] });
+    }
+    // imports that cross a directory boundary: a conftest importing a helper module of its parent directory
+    // (`from ..fx import *` / absolute name found by walking up) or of a child directory (`from .sub.fx import *`)
+    if o.imports && rng.chance(300) {
+        let helpers: Vec<(String, Vec<String>)> = files
+            .iter()
+            .filter(|f| {
+                let base = f.rel.rsplit('/').next().unwrap_or("");
+                f.rel.ends_with(".py") && base != "conftest.py" && base != "__init__.py" && !f.items.iter().any(|i| matches!(i, Item::Test(_))) && base != "orphan_fixtures.py"
+            })
+            .map(|f| (f.rel.clone(), fixture_names_of(f)))
+            .collect();
+        let conftests: Vec<usize> = files.iter().enumerate().filter(|(_, f)| f.rel.ends_with("conftest.py")).map(|(i, _)| i).collect();
+        for ci in conftests {
+            if !rng.chance(400) {
+                continue;
+            }
+            let cdir = dir_of(&files[ci].rel);
+            let cands: Vec<&(String, Vec<String>)> = helpers
+                .iter()
+                .filter(|(h, _)| {
+                    let hd = dir_of(h);
+                    hd != cdir && (parent_dir(&cdir).as_deref() == Some(hd.as_str()) || parent_dir(&hd).as_deref() == Some(cdir.as_str()))
+                })
+                .collect();
+            if cands.is_empty() {
+                continue;
+            }
+            let (h, hn) = (*rng.pick(&cands)).clone();
+            // importing back into a module that (transitively) imports this conftest's directory helpers is fine: the model handles cycles
+            let Some(m) = module_ref(rng, &cdir, &h) else { continue };
+            let it = if hn.is_empty() || rng.chance(600) {
+                Item::Star { module: m, target: Some(h.clone()) }
+            } else {
+                let mut ns = hn.clone();
+                rng.shuffle(&mut ns);
+                ns.truncate(rng.range(1, ns.len()));
+                Item::Import { module: m, names: ns, target: Some(h.clone()) }
+            };
+            let at = rng.below(files[ci].items.iter().take_while(|i| matches!(i, Item::Star { .. } | Item::Import { .. } | Item::Plugins { .. })).count() + 1);
+            files[ci].items.insert(at, it);
+        }
     }
     if o.dep_cycles {
         inject_dep_cycle(rng, &mut files, &names);
